@@ -72,6 +72,23 @@ def check_loops(ctx, rep, rule='L-complete'):
         if b is None:
             continue
         seen = set()
+        early = None
+        for p in ps:
+            # a `for` loop is left only when its iterator is exhausted: a path that got an element and then leaves the function
+            # (break / return out of the loop body) drops the rest of the input
+            if p.end == 'return' and early is None:
+                locs = set()
+                for e in p.events:
+                    if e['k'] == 'loophead' and e.get('depth', 0) == 0:
+                        locs |= set(e.get('pre', {}).keys())
+                    elif e['k'] == 'branch' and e.get('depth', 0) == 0 and locs:
+                        v = strip_upd(e['val'])
+                        if v[0] == 'discr':
+                            c = strip_upd(v[1])
+                            if c[0] in ('call', 'pcall') and re.search(r'Iterator(<.*>)?>?::next$|::next$', c[1]) and len(c[2]) == 1:
+                                a = strip_upd(c[2][0])
+                                if a[0] == 'ref' and a[1][0][0] == 'loc' and a[1][0][2] in locs and e['cond'] == ('eq', 1):
+                                    early = e
         for p in ps:
             for e in p.events:
                 if e['k'] != 'loophead':
@@ -103,4 +120,7 @@ def check_loops(ctx, rep, rule='L-complete'):
                             rep.ob(rule, 'walk-covers-all-positions', ok,
                                    'the start positions of the contour walk must run over 0..result_events.len(); found %s' % show(noepoch(y))[:80],
                                    loc=b.loc(b.j['line_lo']), reason='dominance')
+        rep.ob(rule, 'loop-left-only-when-exhausted:%s' % short(fn), early is None,
+               'a loop of %s is left (break / return) on a path that had just taken an element from its iterator: the remaining elements '
+               'are never processed' % short(fn), loc=b.loc(early['line']) if early else None, reason='dominance')
     rep.floor(rule, 'loops with an iterator', n_loops, 8)
